@@ -212,6 +212,9 @@ func main() {
 	}
 	digest := hex.EncodeToString(hsh.Sum(nil))
 
+	// the concurrent phase runs on a FRESH registry over the same shared option structs: whatever a first use does
+	// (lazy initialisation, caching) must happen under concurrency, not during the sequential reference pass
+	m = newRegistry(o)
 	var wg sync.WaitGroup
 	var mu sync.Mutex
 	mismatches, calls := 0, 0
